@@ -483,6 +483,10 @@ WRITE_FACT_PROBES = {
     # ... nor through a derived type that skips the field (require_static), however its where clause is written
     "RefCellHoldsGcDerived": "use gc_arena::{Collect, Gc};\n#[derive(Collect)]\n#[collect(no_drop)]\npub struct H<'gc> { #[collect(require_static)] slot: std::cell::RefCell<Option<Gc<'gc, u32>>> }\npub fn is_collect<'gc, T: Collect<'gc>>() {}\npub fn f<'gc>() { is_collect::<'gc, H<'gc>>() }\n",
     "RefCellHoldsGcDerivedBound": "use gc_arena::{Collect, Gc};\n#[derive(Collect)]\n#[collect(no_drop, bound = \"\")]\npub struct H<'gc> { #[collect(require_static)] slot: std::cell::RefCell<Option<Gc<'gc, u32>>> }\npub fn is_collect<'gc, T: Collect<'gc>>() {}\npub fn f<'gc>() { is_collect::<'gc, H<'gc>>() }\n",
+    # ... nor through static_collect! (which claims NEEDS_TRACE = false): its generic form must demand 'static of the TYPE
+    "StaticCollectGenericHoldsGc": "use gc_arena::{Collect, Gc, static_collect};\npub struct Slot<'gc, T>(pub std::cell::Cell<Option<Gc<'gc, T>>>);\nstatic_collect!(<T> Slot<'gc, T>);\npub fn is_collect<'gc, T: Collect<'gc>>() {}\npub fn f<'gc>() { is_collect::<'gc, Slot<'gc, u32>>() }\n",
+    "StaticCollectPlainHoldsGc": "use gc_arena::{Collect, Gc, static_collect};\npub struct Slot<'gc>(pub std::cell::Cell<Option<Gc<'gc, u32>>>);\nstatic_collect!(Slot<'gc>);\npub fn is_collect<'gc, T: Collect<'gc>>() {}\npub fn f<'gc>() { is_collect::<'gc, Slot<'gc>>() }\n",
+    "StaticCollectGenericStaticTwin": "use gc_arena::{Collect, static_collect};\npub struct Wrap<T>(pub std::cell::Cell<Option<T>>);\nstatic_collect!(<T> Wrap<T> where T: 'static);\npub fn is_collect<'gc, T: Collect<'gc>>() {}\npub fn f<'gc>() { is_collect::<'gc, Wrap<u32>>() }\n",
     "AsWriteOption": WC_HEAD + f"pub fn f<'a, 'gc>(w: &'a Write<Option<{PT}>>) -> Option<&'a Write<{PT}>> {{ w.as_write() }}\n",
     # positive twins of the projection machinery (must stay usable)
     "FieldDirect": WC_HEAD + f"pub struct S<'gc> {{ pub f: {PT} }}\npub fn f<'a, 'gc>(w: &'a Write<S<'gc>>) -> &'a Write<{PT}> {{ field!(w, S, f) }}\n",
@@ -496,12 +500,15 @@ FORBIDDEN_FACTS = {"FromStaticAny": "Write references cannot be forged for data 
                    "UnlockNoWrite": "unlocking needs a Write reference (unlock_unchecked must be unsafe)",
                    "UnlockNoWrite2": "unlocking needs a Write reference (as_ref_cell must be unsafe)",
                    "CellHoldsGc": "plain Cell cannot hold pointers", "RefCellHoldsGc": "plain RefCell cannot hold pointers",
+                   "StaticCollectGenericHoldsGc": "plain Cell cannot hold pointers (through the generic form of static_collect!)",
+                   "StaticCollectPlainHoldsGc": "plain Cell cannot hold pointers (through static_collect!)",
                    "RefCellHoldsGcDerived": "plain RefCell cannot hold pointers (as a require_static field of a derived type)",
                    "RefCellHoldsGcDerivedBound": "plain RefCell cannot hold pointers (as a require_static field of a derived type with an explicit bound)",
                    "IndexUserImpl_array": "Write references cannot be forged: indexing a Write<[T; N]> with a client-written Index impl",
                    "IndexUserImpl_slice": "Write references cannot be forged: indexing a Write<[T]> with a client-written Index impl",
                    "IndexUserImpl_vec": "Write references cannot be forged: indexing a Write<Vec<T>> with a client-written Index impl"}
-REQUIRED_FACTS = ["FromMut", "DerefBox", "DerefVec", "IndexUnique", "AsWriteOption", "FieldDirect", "UnlockWithWrite"]
+REQUIRED_FACTS = ["FromMut", "DerefBox", "DerefVec", "IndexUnique", "AsWriteOption", "FieldDirect", "UnlockWithWrite",
+                  "StaticCollectGenericStaticTwin"]
 
 EXPLOIT_PRELUDE = """
 use gc_arena::{Arena, Collect, Gc, RefLock, Rootable, barrier::Write};
@@ -765,6 +772,28 @@ ESCAPES = {
     "cross_arena_store": "pub fn f(a: &A, b: &A) { a.mutate(|mc1, r1| { b.mutate(|mc2, r2| { r2.slot.set(mc2, Some(r1.p)); }); }); }",
     "cross_arena_alloc": "pub fn f(a: &A, b: &A) { a.mutate(|mc1, r1| { b.mutate(|mc2, r2| { r1.slot.set(mc1, Some(Gc::new(mc2, 3))); }); }); }",
     "cross_arena_mutation_context": "pub fn f(a: &A, b: &A) { a.mutate(|mc1, r1| { b.mutate(|mc2, r2| { r2.slot.set(mc1, None); }); }); }",
+    # the brand-mixing matrix: every entry point that takes a context (Mutation / Finalization) TOGETHER with a branded
+    # pointer must reject a context of another arena (x = arena 1's pointer, mc2 / fc2 = arena 2's context)
+    **{f"cross_arena_api_{k}": "pub fn f(a: &A, b: &A) { a.mutate(|mc1, r1| { b.mutate(|mc2, r2| { " + body + " }); }); }"
+       for k, body in {
+           "upgrade": "let w = Gc::downgrade(r1.p); let _ = w.upgrade(mc2);",
+           "write": "let _ = Gc::write(mc2, r1.slot);",
+           "lock_set": "r1.slot.set(mc2, None);",
+           "unlock": "let _ = r1.slot.unlock(mc2);",
+           "stash": "let _h = r1.set.stash::<Static<i32>>(mc2, Gc::new(mc2, Static(3)));",
+           "stash_foreign_value": "let _h = r2.set.stash::<Static<i32>>(mc2, Gc::new(mc1, Static(3)));",
+           "backward_barrier": "mc2.backward_barrier(Gc::erase(r1.slot), None);",
+           "forward_barrier": "mc2.forward_barrier(None, Gc::erase(r1.p));",
+           "backward_barrier_weak": "mc2.backward_barrier_weak(Gc::erase(r2.slot), Gc::downgrade(Gc::erase(r1.p)));",
+           "zst_alloc": "let c = ZstCache::<8>::new(mc1); let _z: Gc<'_, ()> = c.alloc(mc2, ());",
+       }.items()},
+    **{f"cross_arena_fin_{k}": "pub fn f(a: &mut A, b: &A) { if let Some(m) = a.finish_marking() { m.finalize(|fc1, r1| { b.mutate(|mc2, r2| { " + body + " }); }); } }"
+       for k, body in {
+           "is_dead": "let _ = Gc::is_dead(fc1, r2.p);",
+           "resurrect": "Gc::resurrect(fc1, r2.p);",
+           "weak_resurrect": "let _ = Gc::downgrade(r2.p).resurrect(fc1);",
+           "weak_is_dead": "let _ = Gc::downgrade(r2.p).is_dead(fc1);",
+       }.items()},
     "cross_arena_stash": "pub fn f(a: &A, b: &A) { a.mutate(|mc1, r1| { b.mutate(|mc2, r2| { let _h = r2.set.stash::<Static<i32>>(mc2, unsafe_free(r1.p)); }); }); }\nfn unsafe_free<'gc>(g: Gc<'gc, i32>) -> Gc<'gc, Static<i32>> { todo!() }",
     "new_arena_with_foreign_pointer": "pub fn f(a: &A) { a.mutate(|mc, root| { let _b = A::new(|mc2| R { p: root.p, slot: Gc::new(mc2, Lock::new(None)), set: DynamicRootSet::new(mc2) }); }); }",
     "map_root_with_foreign_pointer": "pub fn f(a: &A, b: A) { a.mutate(|mc, root| { let _b2 = b.map_root::<Rootable![R<'_>]>(|mc2, mut r| { r.p = root.p; r }); }); }",
@@ -793,6 +822,8 @@ ESCAPE_TWINS = {
     "finalize_returns_data": "pub fn f(a: &mut A) -> Option<bool> { a.finish_marking().map(|m| m.finalize(|fc, root| Gc::is_dead(fc, root.p))) }",
     "uncollectable_root_without_collection": "pub fn f() -> i32 { let a = Arena::<Rootable![Static<Gc<'_, i32>>]>::new(|mc| Static(Gc::new(mc, 1))); a.mutate(|_, r| *r.0) }",
     "root_with_require_static_static_ref_and_bound": "#[derive(Collect)]\n#[collect(no_drop, bound = \"\")]\npub struct R3<'gc> { #[collect(require_static)] pub stash: std::cell::Cell<Option<&'static i32>>, pub p: Gc<'gc, i32> }\npub fn f() { let mut a = Arena::<Rootable![R3<'_>]>::new(|mc| R3 { stash: std::cell::Cell::new(None), p: Gc::new(mc, 1) }); a.mutate(|_, r| r.stash.set(Some(&7))); a.finish_cycle(); }",
+    # the same entry points with matching brands (the positive twin of the brand-mixing matrix)
+    "same_arena_all_context_apis": "pub fn f(a: &mut A) { a.mutate(|mc, r| { let w = Gc::downgrade(r.p); let _ = w.upgrade(mc); let _ = Gc::write(mc, r.slot); r.slot.set(mc, None); let _ = r.slot.unlock(mc); let _h = r.set.stash::<Static<i32>>(mc, Gc::new(mc, Static(3))); mc.backward_barrier(Gc::erase(r.slot), None); mc.forward_barrier(None, Gc::erase(r.p)); mc.backward_barrier_weak(Gc::erase(r.slot), Gc::downgrade(Gc::erase(r.p))); let c = ZstCache::<8>::new(mc); let _z: Gc<'_, ()> = c.alloc(mc, ()); }); if let Some(m) = a.finish_marking() { m.finalize(|fc, r| { let _ = Gc::is_dead(fc, r.p); Gc::resurrect(fc, r.p); let _ = Gc::downgrade(r.p).resurrect(fc); let _ = Gc::downgrade(r.p).is_dead(fc); }); } }",
     "map_root_same_arena": "pub fn f(a: A) -> A { a.map_root::<Rootable![R<'_>]>(|mc, mut r| { r.p = Gc::new(mc, 2); r }) }",
 }
 
